@@ -505,7 +505,10 @@ class ObjModel:
     hasattr  -- {attribute name: field name holding the Bool} for hasattr() tests
     """
 
-    def __init__(self, name, cls=None, fields=None, hasattr=None, invariant=None):
+    def __init__(self, name, cls=None, fields=None, hasattr=None, invariant=None, order_key=None,
+                 isinstance=None):
+        self.order_key = order_key
+        self.isinstance = isinstance
         self.name = name
         self.cls = cls
         self.fields = fields or {}
